@@ -192,12 +192,28 @@ def py_sel(sel, dt=None):
 
 
 def py_index(rsel, csel, spelling="plain"):
-    r = py_sel(rsel)
+    """the same index expression in its alternative spellings: x[r] / x[(r,)] / x[()] , integers as python ints or numpy integers,
+    integer lists as lists or ndarrays"""
+    def alt(sel):
+        v = py_sel(sel)
+        if spelling == "numpy":
+            if sel[0] == "int":
+                return np.int64(v)
+            if sel[0] == "list":
+                return np.array(v, dtype=np.int64)
+            if sel[0] == "mask":
+                return [bool(x) for x in v] if False else v
+        if spelling == "numpy32" and sel[0] == "int":
+            return np.int32(v)
+        if spelling == "numpy32" and sel[0] == "list":
+            return np.array(v, dtype=np.int32)
+        return v
+    r = alt(rsel)
     if csel[0] == "none":
         if rsel[0] == "all" and spelling == "empty":
             return ()
         return (r,) if spelling == "tuple" else r
-    c = py_sel(csel)
+    c = alt(csel)
     return (r, c)
 
 
@@ -416,6 +432,8 @@ def op_reduce(case, o):
             return ["unsupported"]
     elif o.get("how", "method") == "np":
         r = RED_NP[name](a, **kw)
+    elif o.get("how") == "positional" and "axis" in kw and not keep:
+        r = getattr(a, name)(kw["axis"])                     # ra.sum(-1)
     else:
         r = getattr(a, name)(**kw)
     out = proj_any(r, False, "col" if keep else "flat")
